@@ -212,3 +212,65 @@ Definition future_deref_mode : N := 1%N.
 Definition arity_partial_cmp : N := 0%N.
 Definition arity_tramp_nil : N := 1%N.
 Definition arity_recur_flag : N := 1%N.
+
+(* ---- C16 (harness/tr/tr_reader.py): copies of what the translator emits for the pinned tree;
+   the Unicode classes rd_uc_alnum / rd_uc_numeric are cut down to Latin-1 here ---- *)
+Definition rd_str_escapes : list (N * N) := [(34, 34); (92, 92); (97, 7); (98, 8); (102, 12); (110, 10); (114, 13); (116, 9); (118, 11)]%N.
+Definition rd_bytes_escapes : list (N * N) := [(34, 34); (92, 92); (97, 7); (98, 8); (102, 12); (110, 10); (114, 13); (116, 9); (118, 11)]%N.
+Definition rd_special_chars : list (str * N) := [
+  ([110%N; 101%N; 119%N; 108%N; 105%N; 110%N; 101%N], 10%N);
+  ([115%N; 112%N; 97%N; 99%N; 101%N], 32%N);
+  ([116%N; 97%N; 98%N], 9%N);
+  ([102%N; 111%N; 114%N; 109%N; 102%N; 101%N; 101%N; 100%N], 12%N);
+  ([98%N; 97%N; 99%N; 107%N; 115%N; 112%N; 97%N; 99%N; 101%N], 8%N);
+  ([114%N; 101%N; 116%N; 117%N; 114%N; 110%N], 13%N)
+].
+Definition rd_numeric_constants : list (str * N) := [
+  ([78%N; 97%N; 78%N], 0%N);
+  ([73%N; 110%N; 102%N], 1%N);
+  ([45%N; 73%N; 110%N; 102%N], 2%N)
+]. (* 0 NaN, 1 +Inf, 2 -Inf *)
+Definition rd_dispatch : list (N * N) := [(40, 1); (41, 0); (91, 2); (93, 0); (123, 3); (125, 0); (34, 4); (39, 5); (92, 6); (35, 7); (94, 8); (59, 9); (96, 10); (126, 11); (64, 12)]%N.
+(* the table also maps "" (end of input) to `lambda ctx: ctx.eof`; handler codes: 0 None; 1 list 2 vector 3 map 4 str 5 quoted 6 character 7 reader-macro 8 meta
+   9 comment 10 syntax-quoted 11 unquote 12 deref *)
+Definition rd_macro_dispatch : list (N * N) := [(123, 1); (40, 2); (58, 3); (39, 4); (34, 5); (95, 6); (33, 7); (63, 8); (35, 9)]%N.
+(* 1 set 2 function 3 namespaced-map 4 var 5 regex 6 comment-macro 7 comment 8 reader-cond 9 numeric-constant *)
+Definition rd_regex_sources : list (str * str) := [
+  ([98%N; 101%N; 103%N; 105%N; 110%N; 95%N; 110%N; 115%N; 95%N; 110%N; 97%N; 109%N; 101%N; 95%N; 99%N; 104%N; 97%N; 114%N; 115%N], [58%N; 124%N; 91%N; 94%N; 92%N; 115%N; 92%N; 100%N; 93%N]);
+  ([105%N; 100%N; 101%N; 110%N; 116%N; 105%N; 102%N; 105%N; 101%N; 114%N; 95%N; 108%N; 105%N; 116%N; 101%N; 114%N; 97%N; 108%N], [40%N; 91%N; 94%N; 92%N; 100%N; 47%N; 93%N; 92%N; 83%N; 42%N; 47%N; 41%N; 63%N; 40%N; 47%N; 124%N; 91%N; 94%N; 92%N; 100%N; 47%N; 93%N; 91%N; 94%N; 47%N; 93%N; 42%N; 41%N]);
+  ([98%N; 101%N; 103%N; 105%N; 110%N; 95%N; 110%N; 117%N; 109%N; 95%N; 99%N; 104%N; 97%N; 114%N; 115%N], [91%N; 48%N; 45%N; 57%N; 92%N; 45%N; 93%N]);
+  ([109%N; 97%N; 121%N; 98%N; 101%N; 95%N; 110%N; 117%N; 109%N; 95%N; 99%N; 104%N; 97%N; 114%N; 115%N], [91%N; 48%N; 45%N; 57%N; 65%N; 45%N; 90%N; 97%N; 45%N; 122%N; 47%N; 46%N; 43%N; 93%N]);
+  ([105%N; 110%N; 116%N; 101%N; 103%N; 101%N; 114%N; 95%N; 108%N; 105%N; 116%N; 101%N; 114%N; 97%N; 108%N], [40%N; 45%N; 63%N; 40%N; 63%N; 58%N; 92%N; 100%N; 124%N; 91%N; 49%N; 45%N; 57%N; 93%N; 92%N; 100%N; 43%N; 41%N; 41%N; 78%N; 63%N]);
+  ([102%N; 108%N; 111%N; 97%N; 116%N; 95%N; 108%N; 105%N; 116%N; 101%N; 114%N; 97%N; 108%N], [40%N; 45%N; 63%N; 40%N; 63%N; 58%N; 92%N; 100%N; 124%N; 91%N; 49%N; 45%N; 57%N; 93%N; 92%N; 100%N; 43%N; 41%N; 40%N; 63%N; 58%N; 92%N; 46%N; 92%N; 100%N; 42%N; 41%N; 63%N; 41%N; 77%N; 63%N]);
+  ([99%N; 111%N; 109%N; 112%N; 108%N; 101%N; 120%N; 95%N; 108%N; 105%N; 116%N; 101%N; 114%N; 97%N; 108%N], [45%N; 63%N; 40%N; 92%N; 100%N; 43%N; 40%N; 63%N; 58%N; 92%N; 46%N; 92%N; 100%N; 42%N; 41%N; 63%N; 41%N; 74%N]);
+  ([97%N; 114%N; 98%N; 105%N; 116%N; 114%N; 97%N; 114%N; 121%N; 95%N; 98%N; 97%N; 115%N; 101%N; 95%N; 108%N; 105%N; 116%N; 101%N; 114%N; 97%N; 108%N], [45%N; 63%N; 40%N; 92%N; 100%N; 123%N; 49%N; 44%N; 50%N; 125%N; 41%N; 114%N; 40%N; 91%N; 48%N; 45%N; 57%N; 65%N; 45%N; 90%N; 97%N; 45%N; 122%N; 93%N; 43%N; 41%N]);
+  ([111%N; 99%N; 116%N; 97%N; 108%N; 95%N; 108%N; 105%N; 116%N; 101%N; 114%N; 97%N; 108%N], [45%N; 63%N; 48%N; 40%N; 91%N; 48%N; 45%N; 55%N; 93%N; 43%N; 41%N; 78%N; 63%N]);
+  ([104%N; 101%N; 120%N; 95%N; 99%N; 104%N; 97%N; 114%N; 115%N], [91%N; 48%N; 45%N; 57%N; 65%N; 45%N; 70%N; 97%N; 45%N; 102%N; 93%N]);
+  ([104%N; 101%N; 120%N; 95%N; 108%N; 105%N; 116%N; 101%N; 114%N; 97%N; 108%N], [45%N; 63%N; 48%N; 91%N; 88%N; 120%N; 93%N; 40%N; 91%N; 48%N; 45%N; 57%N; 65%N; 45%N; 70%N; 97%N; 45%N; 102%N; 93%N; 43%N; 41%N; 78%N; 63%N]);
+  ([114%N; 97%N; 116%N; 105%N; 111%N; 95%N; 108%N; 105%N; 116%N; 101%N; 114%N; 97%N; 108%N], [40%N; 45%N; 63%N; 92%N; 100%N; 43%N; 41%N; 47%N; 40%N; 92%N; 100%N; 43%N; 41%N]);
+  ([115%N; 99%N; 105%N; 101%N; 110%N; 116%N; 105%N; 102%N; 105%N; 99%N; 95%N; 110%N; 111%N; 116%N; 97%N; 116%N; 105%N; 111%N; 110%N; 95%N; 108%N; 105%N; 116%N; 101%N; 114%N; 97%N; 108%N], [45%N; 63%N; 40%N; 92%N; 100%N; 43%N; 40%N; 63%N; 58%N; 92%N; 46%N; 92%N; 100%N; 42%N; 41%N; 63%N; 41%N; 91%N; 69%N; 101%N; 93%N; 40%N; 91%N; 43%N; 92%N; 45%N; 93%N; 63%N; 92%N; 100%N; 43%N; 77%N; 63%N; 41%N]);
+  ([119%N; 104%N; 105%N; 116%N; 101%N; 115%N; 112%N; 97%N; 99%N; 101%N; 95%N; 99%N; 104%N; 97%N; 114%N; 115%N], [91%N; 92%N; 115%N; 44%N; 93%N]);
+  ([110%N; 101%N; 119%N; 108%N; 105%N; 110%N; 101%N; 95%N; 99%N; 104%N; 97%N; 114%N; 115%N], [40%N; 13%N; 10%N; 124%N; 13%N; 124%N; 10%N; 41%N]);
+  ([102%N; 110%N; 95%N; 109%N; 97%N; 99%N; 114%N; 111%N; 95%N; 97%N; 114%N; 103%N; 115%N], [40%N; 37%N; 41%N; 40%N; 38%N; 124%N; 91%N; 48%N; 45%N; 57%N; 93%N; 41%N; 63%N]);
+  ([117%N; 110%N; 105%N; 99%N; 111%N; 100%N; 101%N; 95%N; 99%N; 104%N; 97%N; 114%N], [117%N; 40%N; 92%N; 119%N; 43%N; 41%N])
+].
+Definition rd_ns_term_exempt : list N := [35; 37; 39]%N. (* dispatch characters which do not end a symbol/keyword token *)
+Definition rd_pushback_depth : N := 5%N.
+Definition rd_default_index_neg : N := 2%N. (* StreamReader.DEFAULT_INDEX = -2 *)
+Definition rd_unicode_lens : list N := [4; 8]%N.
+Definition rd_uc_space : list (N * N) := [(9, 13); (28, 32); (133, 133); (160, 160); (5760, 5760); (8192, 8202); (8232, 8233); (8239, 8239); (8287, 8287); (12288, 12288)]%N.
+Definition rd_uc_digit : list (N * N) := [(48, 57); (1632, 1641); (1776, 1785)]%N.
+Definition rd_uc_alnum : list (N * N) := [(48, 57); (65, 90); (97, 122); (170, 170); (178, 179); (181, 181); (185, 186); (188, 190); (192, 214); (216, 246); (248, 255)]%N.
+Definition rd_uc_numeric : list (N * N) := [(48, 57); (178, 179); (185, 185); (188, 190)]%N.
+Definition rd_features : list str := [
+  [108%N; 112%N; 121%N];
+  [100%N; 101%N; 102%N; 97%N; 117%N; 108%N; 116%N];
+  [108%N; 105%N; 110%N; 117%N; 120%N];
+  [108%N; 112%N; 121%N; 51%N; 49%N; 50%N];
+  [108%N; 112%N; 121%N; 51%N; 49%N; 48%N; 43%N];
+  [108%N; 112%N; 121%N; 51%N; 49%N; 49%N; 43%N];
+  [108%N; 112%N; 121%N; 51%N; 49%N; 50%N; 45%N];
+  [108%N; 112%N; 121%N; 51%N; 49%N; 50%N; 43%N];
+  [108%N; 112%N; 121%N; 51%N; 49%N; 51%N; 45%N];
+  [108%N; 112%N; 121%N; 51%N; 49%N; 52%N; 45%N]
+].
